@@ -6,7 +6,7 @@ From Coq Require Import List ZArith Bool.
 From LJT Require Import model.T81Spec model.T81Arith gen.GenAricom gen.GenT81Src proofs.T81SrcProofs proofs.T81StuffProofs proofs.T81ParseProofs proofs.T81LenProofs
   proofs.T81BlockProofs proofs.T81ScanProofs proofs.T81HuffProofs proofs.T81WriterProofs proofs.T81WrittenProofs proofs.T81CompleteProofs proofs.T81ParseInvProofs proofs.T81Examples
   proofs.T81ArithProofs proofs.T81QMProofs proofs.T81AricomProofs proofs.T81ArithExamples
-  proofs.T81ArithProofsIdeal proofs.T81ArithProofsBytes proofs.T81ArithProofsScan proofs.T81LosslessProofs proofs.T81ProgProofs.
+  proofs.T81ArithProofsIdeal proofs.T81ArithProofsBytes proofs.T81ArithProofsScan proofs.T81LosslessProofs proofs.T81ProgProofs proofs.T81ProgWriterProofs.
 Import ListNotations.
 Local Open Scope Z_scope.
 
@@ -172,6 +172,27 @@ Theorem C04_progressive_correction : forall fuel m w r c se p1 k bs m' bs', 0 <=
   pcorrect fuel m w r c se p1 k bs = Some (m', bs') -> refined m m' w r c k se p1.
 Proof. exact pcorrect_refines. Qed.
 Print Assumptions C04_progressive_correction.
+
+(* (15) Annex G round trip inside the specification: the progressive Huffman decoder procedures
+   invert the spec-level progressive writer of T81Spec (EOB0 per block, ZRL, correction bits after
+   the symbol whose run passes them), for abstract prefix codes, every band and point transform:
+   AC first scan (pac_first vs F.1.2.2 coding of the point-transformed band) ... *)
+Theorem C04_prog_ac_first_codec : forall ac, coder_ok (hc_enc ac) (hc_dec ac) ->
+  forall w r c al zs run kd fuel m bits rest, Forall (fun z => category z <= 15) zs -> 0 <= run ->
+  enc_ac (hc_enc ac) zs run = Some bits -> run + lenZ zs < Z.of_nat fuel ->
+  pac_first fuel ac m w r c (kd + run + lenZ zs - 1) al kd (bits ++ rest) = Some (wr_band m w r c (kd + run) al zs, 0, rest).
+Proof. exact pac_first_enc. Qed.
+Print Assumptions C04_prog_ac_first_codec.
+
+(* ... and AC refinement scan (pac_refine with padvance / pcorrect vs enc_ref), given that the
+   decoder's history is non-zero exactly where the coefficient was already non-zero *)
+Theorem C04_prog_ac_refine_codec : forall ac, coder_ok (hc_enc ac) (hc_dec ac) ->
+  forall w r c p1, 0 <= r * w + c ->
+  forall l kd m bits rest, hist_ok w r c m kd l -> (length l <= 63)%nat -> 0 <= kd ->
+  enc_ref (hc_enc ac) l true 0 [] = Some bits ->
+  pac_refine 64 ac m w r c (kd + lenZ l - 1) p1 kd (bits ++ rest) = Some (wr_ref m w r c kd p1 l, 0, rest).
+Proof. exact pac_refine_enc. Qed.
+Print Assumptions C04_prog_ac_refine_codec.
 
 (* ---- arithmetic coding (Annex D, F.1.4 / F.2.4; sequential process SOF9) ---- *)
 (* (6) binarisation and statistics-bin selection (DC difference with conditioning context, AC
